@@ -110,7 +110,7 @@ def r14_2(ctx):
     for bi, si, st in stores:
         src = peel(o.rvalue(st["rv"]))
         shown = src.show()
-        from_min = "Iterator::min" in shown and "map_or" in shown
+        from_min = src.has_call("Iterator::min", "Iterator::min_by_key") and src.has_call("Option::map_or", "Option::map")
         ctx.check(from_min and f.dominates(bi, runs[0]), "store-effective", stmt_loc(f, bi, si),
                   "the min-selected timeout is stored into testcase.config.timeout and dominates Runner::run",
                   "testcase.config.timeout is not set from the min-selected value before Runner::run (%s)" % shown[:200])
@@ -250,7 +250,7 @@ def r14_4(ctx):
                 continue
             tree = peel(cond_tree(f, gb, o))
             shown = tree.show()
-            if "map_or" in shown and tree.kind == "field" and tree.a == "0":
+            if tree.has_call("Option::map_or") and tree.kind == "field" and tree.a == "0":
                 edge = be[0] if arv["variant"] == "Total" else be[1]
                 if ab in f.reachable(edge) and ab not in f.reachable(0, removed_edges=[(gb, edge)]):
                     ok = True
@@ -304,10 +304,10 @@ def r14_5(ctx):
             continue
         cl = peel(o.operand(t["args"][1]))
         if cl.kind == "agg" and any(cl.a[0] == "closure " + c.path for c in skipped_closures):
-            src = o.operand(t["args"][0]).show()
-            if "Iterator::skip" in src:
+            srcn = o.operand(t["args"][0])
+            if srcn.has_call("Iterator::skip"):
                 found = True
-                ctx.check("len" in src and "testcases" in src.lower() or "len" in src, "remainder-skipped", run.loc(bb),
+                ctx.check(srcn.has_call("Vec::len", "slice::len"), "remainder-skipped", run.loc(bb),
                           "test cases after the timed-out one (`skip(outputs.len())`) are reported as Skipped")
     ctx.check(found, "remainder-skipped-site", run.where(), "the post-timeout remainder is mapped to Err(Skipped)",
               "no `testcases.iter().skip(outputs.len()).map(.. Err(Skipped))` found for the post-timeout remainder")
